@@ -491,6 +491,29 @@ def _dataclass(acc):
                 if r[0] == "ok" and isinstance(x, list) and len(x) > 1:
                     v(f"no-data-loss-collapse-{flags}", f"a list of {len(x)} mappings became one instance under {flags}")
             acc.sample(dict(target=base, value=vx, results=[r[0] for r in res]))
+        # the preference declared on a class-style Options that the class's own options extend: an inherited setting
+        # is a setting (with what it implies: no_data_loss rejects unknown keys)
+        src2 = (f"class NDL(Options):\n    no_data_loss = True\nclass SI({base}):\n    class __options__(NDL):\n"
+                f"        case_insensitive = True\n    a: int\n    b: str = 'd'\n")
+        env2 = dict(_NS)
+        env2["__name__"] = "utmc.ns"
+        exec(src2, env2)
+        for vx in ("{'a': 1}", "{'a': 1, 'zz': 2}", "{'A': 1, 'zz': 2, 'yy': 3}", "{'a': 1.5}", "{'a': '2'}"):
+            acc.states += 1
+            acc.transitions += 1
+            x = ev(vx)
+            try:
+                r = ("ok", env2["SI"](**x))
+            except (TypeError, ValueError) as e:
+                r = ("err", e)
+            acc.evaluations += 1
+            lost = r[0] == "ok" and (set(k.lower() for k in x) - {"a", "b"} or x.get("a", x.get("A")) == 1.5)
+            if lost:
+                acc.violation(f"C12|{base}|inherited-no-data-loss-not-applied|{_vshape(x)}",
+                              f"SI(**{vx}) with class-style options inheriting no_data_loss=True returned {short(r[1], 50)}: "
+                              f"unknown keys / a lossy value were accepted",
+                              "import sys\nsys.path.insert(0, '/verif')\nfrom utmc.ns import *\n" + src2 +
+                              f"try:\n    print(SI(**{vx})); sys.exit(1)\nexcept (TypeError, ValueError) as e:\n    print('rejected:', e); sys.exit(0)\n")
 
 
 def _union(acc, first):
